@@ -54,6 +54,30 @@ def literal_terms(t):
     return None
 
 
+def _lift_py(v):
+    if isinstance(v, (tuple, list)):
+        return ("tuple", tuple(_lift_py(x) for x in v))
+    return const(v)
+
+
+def _module_table(summary, it):
+    """Items of a loop over a module-level constant table (tuple / list of constants or of constant tuples)."""
+    it = strip(it)
+    P = getattr(_module_table, "program", None)
+    if head(it) != "glob" or P is None or it[1] not in P.module_vars:
+        return None
+    try:
+        v = module_const(P, it[1])
+    except (NotConstant, TypeError):
+        return None
+    if isinstance(v, (tuple, list)) and 0 < len(v) <= 64:
+        try:
+            return [_lift_py(x) for x in v]
+        except TypeError:
+            return None
+    return None
+
+
 def table_items(summary, lp):
     """Items of ``for k, v in table.items()`` where ``table`` is a local dict that is filled, before the loop, only by stores with keys that
     are constants after unrolling their own literal loops (a dispatch table): [(key, value) tuple terms] in insertion order, else None."""
@@ -101,7 +125,7 @@ def unroll(summary, event_or_ctxloops, terms):
     domains = []
     for lid in loops:
         lp = summary.loops[lid]
-        items = (literal_terms(subst(lp.iterable, {})) or table_items(summary, lp)) if lp.kind == "for" else None
+        items = (literal_terms(subst(lp.iterable, {})) or _module_table(summary, lp.iterable) or table_items(summary, lp)) if lp.kind == "for" else None
         if items is not None:
             domains.append((lp, items))
     combos = [({}, {})]
